@@ -17,7 +17,7 @@ CONF = """
 neighbor 127.0.0.1 {{
     router-id 10.0.0.2;
     local-address 127.0.0.1;
-    local-as 65001;
+    local-as {local_as};
     peer-as 65002;
     hold-time {hold};
     {extra}
@@ -51,10 +51,10 @@ def open_msg(asn=65002, hold=180, rid='10.0.0.9', caps=None, version=4):
 KEEPALIVE = msg(4)
 
 
-def make_neighbor(hold=180, extra=''):
+def make_neighbor(hold=180, extra='', local_as='65001'):
     from exabgp.configuration.configuration import Configuration
 
-    conf = Configuration([CONF.format(hold=hold, extra=extra)], text=True)
+    conf = Configuration([CONF.format(hold=hold, extra=extra, local_as=local_as)], text=True)
     if not conf.reload():
         raise RuntimeError('harness configuration refused: %s' % conf.error)
     (nb,) = conf.neighbors.values()
@@ -179,14 +179,14 @@ class Reactor:
 
 
 class Session:
-    def __init__(self, hold=180, extra=''):
+    def __init__(self, hold=180, extra='', local_as='65001'):
         from exabgp.protocol.family import AFI
         from exabgp.reactor.network.incoming import Incoming
         from exabgp.reactor.peer import Peer
         from exabgp.reactor.protocol import Protocol
 
         self.log = []  # ('fsm', from, to) | ('sent', state, type, body) | ('api', ...) | ('closed', state)
-        self.neighbor = make_neighbor(hold, extra)
+        self.neighbor = make_neighbor(hold, extra, local_as)
         self.reactor = Reactor(self.log)
         self.peer = Peer(self.neighbor, self.reactor)
         ours, theirs = tcp_pair()
